@@ -92,8 +92,15 @@ def check(ctx):
 
 def check_gate(ctx, tu, f):
     gates = [n for n in f.calls() if (f.callee_key(n) or '') == 'ForEachMixins::forEach']
-    invs = [n for n in f.calls() if (f.callee_key(n) or '') in ('CallbackListBase::operator()', 'HeterCallbackListBase::operator()')]
+    LISTCALL = ('CallbackListBase::operator()', 'HeterCallbackListBase::operator()')
+    invs = [n for n in f.calls() if (f.callee_key(n) or '') in LISTCALL]
     finds = [n for n in f.calls() if (f.callee_key(n) or '').endswith('::doFindCallableList')]
+    if not invs:
+        # lookup + invocation may sit in a private helper ("find the list of e and invoke it with the arguments"): the call of that
+        # helper is the invocation site
+        deep = f.deep_calls(lambda h, m: (h.callee_key(m) or '') in LISTCALL, depth=1)
+        tops = sorted({t for (t, h, m) in deep if h.id != f.id})
+        invs = tops
     ok = len(gates) == 1 and len(invs) == 1
     ctx.ob('C12.F1', f, 'one mixin gate and one listener invocation', ok, detail='gates %d, invocations %d' % (len(gates), len(invs)))
     if not ok:
@@ -169,6 +176,16 @@ def check_gate(ctx, tu, f):
         p = path(f, a, resolve_refs=False)
         gv.append(root_var_id(p) if ok_l and len(p) == 1 else None)
     iv = [arg_var(f, a, allow_conv=True) for a in iargs]
+    if (f.callee_key(inv) or '') not in LISTCALL:
+        # the invocation site is a helper call: which of its arguments reach the listeners, and in which order?
+        for h in f.callee_fns(inv):
+            inner = [m for m in h.calls() if (h.callee_key(m) or '') in LISTCALL]
+            if len(inner) == 1:
+                hv = [arg_var(h, a, allow_conv=True) for a in h.call_args(inner[0])]
+                hp = [p_['id'] for p_ in h.params]
+                k = len(hp) - len(hv)
+                if k >= 0 and hv == hp[k:] and len(iv) == len(hp):
+                    iv = iv[k:]
     ctx.ob('C12.F2', f, 'the mixins receive lvalue references to exactly the parameters later passed to the listeners, in order',
            gv == iv and None not in gv,
            detail='filters get %s ; listeners get %s (a copy handed to the filters hides their modifications from the listeners)'
@@ -376,8 +393,28 @@ def member_calls(f, field):
     return out
 
 
+def helper_member_call(f, field):
+    """Calls in f to a private helper of the same class that does nothing but call this.<field> with its own parameters (as lvalues, in
+    order) and return the result: [(call node in f)]. The helper stands for the member call at that site."""
+    out = []
+    for n in f.calls():
+        for g in f.callee_fns(n):
+            if g.clsq != f.clsq or g.id == f.id or g.kind == 'lambda':
+                continue
+            inner = member_calls(g, field)
+            rets = g.return_nodes()
+            if len(inner) != 1 or len(rets) != 1:
+                continue
+            rv = g.value_source(g.kids(rets[0])[0]) if g.kids(rets[0]) else None
+            if rv != inner[0] and inner[0] not in ([rv] + g.descendants(rv) if rv else []):
+                continue
+            if [arg_source(g, a) for a in g.call_args(inner[0])] == [p['id'] for p in g.params] and all(is_lvalue_arg(g, a) for a in g.call_args(inner[0])):
+                out.append(n)
+    return out
+
+
 def check_condfunctor(ctx, tu, f, ma):
-    conds = member_calls(f, 'condition')
+    conds = member_calls(f, 'condition') or helper_member_call(f, 'condition')
     funcs = member_calls(f, 'func')
     ok = len(conds) == 1 and len(funcs) == 1
     ctx.ob('C12.F5', f, 'one condition call and one function call', ok, detail='condition calls %d, function calls %d' % (len(conds), len(funcs)))
@@ -385,15 +422,18 @@ def check_condfunctor(ctx, tu, f, ma):
         return
     c, fn = conds[0], funcs[0]
     dom = False
-    for bid, blk in f.blocks.items():
-        cd = blk.get('cond')
-        if cd and f.strip_all_casts(cd) == c and edge_dominates(f, bid, 'true', f.pos(fn)):
-            # and nothing else guards it
-            dom = True
     others = 0
     for bid, blk in f.blocks.items():
         cd = blk.get('cond')
-        if cd and len(blk['succ']) == 2 and f.strip_all_casts(cd) != c and (edge_dominates(f, bid, 'true', f.pos(fn)) or edge_dominates(f, bid, 'false', f.pos(fn))):
+        if not cd or len(blk['succ']) != 2:
+            continue
+        core, neg = f.cond_core(cd)
+        on_true = edge_dominates(f, bid, 'true', f.pos(fn))
+        on_false = edge_dominates(f, bid, 'false', f.pos(fn))
+        if core == c:
+            if (on_false if neg else on_true):
+                dom = True
+        elif on_true or on_false:
             others += 1
     ctx.ob('C12.F5', f, 'the wrapped function runs exactly when the condition returned true', dom and others == 0 and f.pos_postdominates(f.pos(c), (f.entry, 0)))
     want = [p['id'] for p in f.params]
